@@ -6,11 +6,12 @@
    so in particular any number of logins (login_thread), rejected logins and disconnects
    (disconnect_thread) over any names, case variants and UUIDs; [sched] is ANY list of goroutine
    indices, complete or not, so the state after [run ... sched] is every reachable moment.
-   [c : cfg] carries the mode (online, kick) and the two code variants:
-     v_unreg c = false  unregisterConnection removes only entries holding that very player (specified),
-     v_unreg c = true   today's unconditional delete (finding C11-1),
-     v_leak  c = false  registerConnection unlocks muP on its failure path (specified),
-     v_leak  c = true   today's missing Unlock (finding C11-2). *)
+   [c : cfg] carries the mode (online, kick) and two switches that select the code variant:
+     v_unreg c = false  unregisterConnection removes only entries holding that very player,
+     v_leak  c = false  registerConnection unlocks muP on its failure path
+   — this is the code AS IT IS NOW (impl_cfg = spec_cfg, see C11_impl_is_spec), and
+     v_unreg c = true / v_leak c = true  the code BEFORE the `fix:` commits of findings C11-1 / C11-2
+   (prefix_cfg), kept only so that the old defects stay stated and refuted below. *)
 From Coq Require Import List NArith Bool String.
 From Verif Require Import Base.Conc Model.PlayerRegistry Proofs.C11 Proofs.C11_LockFacts.
 Import ListNotations.
@@ -89,64 +90,78 @@ Theorem C11_lock_never_leaked :
 Proof. exact noleak_all_schedules. Qed.
 Print Assumptions C11_lock_never_leaked.
 
-(* ---- today's code ---- *)
+(* the code as it is now is the specified variant, so every theorem above applies to it *)
+Theorem C11_impl_is_spec : forall on kk,
+  impl_cfg on kk = spec_cfg on kk /\ v_unreg (impl_cfg on kk) = false /\ v_leak (impl_cfg on kk) = false.
+Proof. intros on kk. repeat split. Qed.
+Print Assumptions C11_impl_is_spec.
 
-(* Finding C11-1: with today's unconditional unregister the findable clause is FALSE: two login
+(* the judge's walk over an OBSERVED event log (Model.order_ok) implies the ordering clause on that log *)
+Theorem C11_observed_log_walk_sound : forall evs, order_ok [] evs = true ->
+  forall l1 p l2, evs = l1 ++ EvReg p :: l2 ->
+  forall q, q <> p -> p_id q = p_id p -> In (EvReg q) l1 -> own_removal q l1.
+Proof. exact order_ok_sound. Qed.
+Print Assumptions C11_observed_log_walk_sound.
+
+(* ---- the PRE-FIX code (prefix_cfg): findings C11-1 and C11-2, repaired in /repo; historical facts ---- *)
+
+(* Finding C11-1 (fixed): with the PRE-FIX unconditional unregister the findable clause was FALSE: two login
    goroutines ("Alice", then a rejected duplicate "alice" with the same UUID), run one after the other. *)
-Theorem C11_findable_until_own_disconnect_refuted :
+Theorem C11_prefix_findable_until_own_disconnect_refuted :
   exists (ts : list (list act)) (sched : list nat) (p : player),
-    let c := impl_cfg false false in
+    let c := prefix_cfg false false in
     let r := run (compile c ts) sched init in
     live p (events r) /\ get_id (p_id p) (final_state r) = None /\ player_count (final_state r) = 0%nat.
 Proof.
-  exists (ts_dup alice_dup_same_uuid (impl_cfg false false)), sched_seq, alice.
+  exists (ts_dup alice_dup_same_uuid (prefix_cfg false false)), sched_seq, alice.
   destruct findable_refuted_witness as [H1 [H2 [H3 [H4 H5]]]].
   split; [|split; assumption]. split; [exact H1|].
   intros [[st Ht]|Hu]; [apply H2 in Ht; discriminate|exact (H3 _ Hu)].
 Qed.
-Print Assumptions C11_findable_until_own_disconnect_refuted.
+Print Assumptions C11_prefix_findable_until_own_disconnect_refuted.
 
-(* Finding C11-1, offline flavour (other spelling = other UUID): the indices disagree afterwards. *)
-Theorem C11_indices_agree_refuted :
+(* Finding C11-1 (fixed), offline flavour (other spelling = other UUID): the indices disagreed afterwards. *)
+Theorem C11_prefix_indices_agree_refuted :
   exists (ts : list (list act)) (sched : list nat) (p : player),
-    let c := impl_cfg false false in
+    let c := prefix_cfg false false in
     let s := final_state (run (compile c ts) sched init) in
     get_id (p_id p) s = Some p /\ get_name (lname p) s = None.
 Proof.
-  exists (ts_dup alice_dup_other_uuid (impl_cfg false false)), sched_seq, alice.
+  exists (ts_dup alice_dup_other_uuid (prefix_cfg false false)), sched_seq, alice.
   exact agree_refuted_witness.
 Qed.
-Print Assumptions C11_indices_agree_refuted.
+Print Assumptions C11_prefix_indices_agree_refuted.
 
-(* Finding C11-2: two logins of one name that both pass canRegisterConnection: the loser's
-   registerConnection returns with muP locked. *)
-Theorem C11_lock_never_leaked_refuted :
+(* Finding C11-2 (fixed): two logins of one name that both pass canRegisterConnection: the loser's
+   PRE-FIX registerConnection returned with muP locked. *)
+Theorem C11_prefix_lock_never_leaked_refuted :
   exists (ts : list (list act)) (sched : list nat),
-    let c := impl_cfg false false in
+    let c := prefix_cfg false false in
     let r := run (compile c ts) sched init in
     leaked (final_state r) = true /\ In EvBlocked (events r).
 Proof.
-  exists (ts_dup alice_dup_same_uuid (impl_cfg false false)), sched_race.
+  exists (ts_dup alice_dup_same_uuid (prefix_cfg false false)), sched_race.
   exact leak_refuted_witness.
 Qed.
-Print Assumptions C11_lock_never_leaked_refuted.
+Print Assumptions C11_prefix_lock_never_leaked_refuted.
 
-(* Off the recorded triggers today's functions equal the specified ones. *)
-Theorem C11_unregister_impl_eq_spec_off_trigger :
+(* Off the recorded triggers the pre-fix functions equalled the specified (= present) ones. *)
+Theorem C11_unregister_prefix_eq_spec_off_trigger :
   forall on kk p s, trigger_unreg p s = false ->
-    unregister (impl_cfg on kk) p s = unregister (spec_cfg on kk) p s.
+    unregister (prefix_cfg on kk) p s = unregister (spec_cfg on kk) p s.
 Proof. exact unregister_off_trigger. Qed.
-Print Assumptions C11_unregister_impl_eq_spec_off_trigger.
+Print Assumptions C11_unregister_prefix_eq_spec_off_trigger.
 
-Theorem C11_register_impl_eq_spec_off_trigger :
-  forall on p s, trigger_leak (impl_cfg on false) p s = false ->
-    register_nokick (impl_cfg on false) p s = register_nokick (spec_cfg on false) p s.
+Theorem C11_register_prefix_eq_spec_off_trigger :
+  forall on p s, trigger_leak (prefix_cfg on false) p s = false ->
+    register_nokick (prefix_cfg on false) p s = register_nokick (spec_cfg on false) p s.
 Proof. exact register_off_trigger. Qed.
-Print Assumptions C11_register_impl_eq_spec_off_trigger.
+Print Assumptions C11_register_prefix_eq_spec_off_trigger.
 
 (* Atomicity premise of the model, re-proved from today's source text on every run (translator
    lockfacts): every access of playerNames / playerIDs inside canRegisterConnection,
-   registerConnection and unregisterConnection happens with muP held, and those sites exist. *)
+   registerConnection, unregisterConnection and the lookups happens with muP held, those sites exist,
+   and NO function returns with a registry mutex held (no lock leak; none is tolerated any more). *)
 Theorem C11_registry_sections_locked : registry_sections_locked = true.
 Proof. exact registry_sections_locked_ok. Qed.
 Print Assumptions C11_registry_sections_locked.
